@@ -15,7 +15,8 @@ class Untranslatable(Exception):
 
 
 class Tr:
-    def __init__(self, sym=None, pow_n=None, uf=False):
+    def __init__(self, sym=None, pow_n=None, uf=False, unit=None):
+        self.unit = unit or {}   # symbol name -> (cos, sin) z3 pair standing for e^{i*symbol}: e^{i*m*symbol} = (c + i s)^m
         self._sym = sym
         self.syms = {}
         self.side = []      # z3 constraints defining algebraic numbers
@@ -92,23 +93,65 @@ class Tr:
         raise Untranslatable(f"unsupported {e} ({type(e).__name__})")
 
     def uf_app(self, name, arg):
+        arg = z3.simplify(arg)
+        if z3.is_rational_value(arg) or z3.is_int_value(arg):
+            # a concrete argument: one fresh real per (function, argument) -- no uninterpreted function needed
+            key = ("const", name, str(arg))
+            if key not in self.alg:
+                self.alg[key] = z3.Real(f"{name}_at_{str(arg).replace('/', '_').replace('-', 'm')}")
+            return self.alg[key]
         if name not in self.ufs:
             self.ufs[name] = z3.Function(name, z3.RealSort(), z3.RealSort())
-        return self.ufs[name](z3.simplify(arg))
+        return self.ufs[name](arg)
 
     def exp(self, arg):
+        """exp(a + i b): every additive term m*X with integer m becomes the m-th power of exp_uf(X) (> 0), resp. of the
+        unit-circle point (cos_uf(X), sin_uf(X)) -- so e^{2x} = (e^x)^2 and e^{i2t} = (e^{it})^2 hold by construction."""
         if not self.uf:
             raise Untranslatable(f"exp({arg})")
         arg = sp.expand(arg)
         re_part, im_part = arg.as_real_imag() if not arg.free_symbols else self._split_ri(arg)
         out = (z3.RealVal(1), None)
-        if re_part != 0:
-            a, _ = self.tr(re_part)
-            out = (self.uf_app("exp", a), None)
-        if im_part != 0:
-            b, _ = self.tr(im_part)
-            out = self.mul(out, (self.uf_app("cos", b), self.uf_app("sin", b)))
+        for term in sp.Add.make_args(sp.expand(re_part)):
+            if term == 0:
+                continue
+            m, X = self._int_multiple(term)
+            a, _ = self.tr(X)
+            e = self.uf_app("exp", a)
+            self.side.append(e > 0)
+            base = (e, None) if m > 0 else (1 / e, None)
+            out = self.mul(out, self.ipow(base, abs(m)))
+        for term in sp.Add.make_args(sp.expand(im_part)):
+            if term == 0:
+                continue
+            m, X = self._int_multiple(term)
+            u = None
+            if X.is_Symbol and X.name in self.unit:
+                u = self.unit[X.name]
+            else:
+                b, _ = self.tr(X)
+                c, s_ = self.uf_app("cos", b), self.uf_app("sin", b)
+                self.side.append(c * c + s_ * s_ == 1)
+                u = (c, s_)
+            if m < 0:
+                u = (u[0], -u[1])
+            out = self.mul(out, self.ipow(u, abs(m)))
         return out
+
+    @staticmethod
+    def _int_multiple(term):
+        """term = m * X with the largest integer |m| >= 1 such that X keeps a canonical (positive leading) form"""
+        c, X = term.as_coeff_Mul()
+        if c.is_Integer and X != 1:
+            return int(c), X
+        if c.is_Integer and X == 1:
+            return int(c), sp.Integer(1)
+        if c.is_Rational:
+            if X == 1:
+                # p/q -> p * (1/q)
+                return int(c.p), sp.Rational(1, c.q)
+            return int(c.p), X / c.q
+        return 1, term
 
     @staticmethod
     def _split_ri(arg):
